@@ -1,6 +1,7 @@
 package main
 
 import (
+	"go/types"
 	"fmt"
 	"go/token"
 	"sort"
@@ -201,6 +202,209 @@ func checkC10(c *Ctx, r *Report) {
 		}
 	}
 
+	scs := checkClosureExits(c, r)
+
+	// (b2) the back-off policy is the backoff package's default: nothing caps the number of
+	// attempts or the elapsed time, so temporary codes and garbage are retried for as long
+	// as the caller's context allows
+	r.Rule("backoff-policy-default", "the module neither shortens a back-off policy's elapsed-time cap nor wraps a policy in a retry-count limit: retrying ends only through the context (or a final outcome), as with the backoff package's defaults", 1)
+	nPol := 0
+	for _, fn := range c.LibFuncs() {
+		rawInstrs(fn, false, func(in ssa.Instruction) {
+			if st, ok := in.(*ssa.Store); ok {
+				if fa, ok := st.Addr.(*ssa.FieldAddr); ok {
+					t := fa.X.Type()
+					if pt, ok := t.Underlying().(*types.Pointer); ok {
+						t = pt.Elem()
+					}
+					if strings.Contains(types.TypeString(t, nil), "cenkalti/backoff") {
+						f := structField(fa.X.Type(), fa.Field)
+						fname := "?"
+						if f != nil {
+							fname = f.Name()
+						}
+						// intervals and multipliers are timing (not decided); what ends the loop early is
+						// the elapsed-time cap. 0 (never) and the package default are what the code has now.
+						if fname != "MaxElapsedTime" {
+							return
+						}
+						if k, isK := constInt(st.Val); isK && (k == 0 || k == int64(15*60*1e9)) {
+							return
+						}
+						nPol++
+						r.Bad(c.FnName(fn)+"|policy field "+fname, st.Pos(), "a field of the back-off policy is overwritten ("+fname+"): the retry loop no longer runs for as long as the caller's context allows (or no longer backs off as documented)")
+					}
+				}
+			}
+			if cc := asCall(in); cc != nil {
+				switch n := calleeName(cc); {
+				case strings.HasSuffix(n, "backoff/v4.WithMaxRetries"), strings.HasSuffix(n, "backoff.WithMaxRetries"):
+					nPol++
+					r.Bad(c.FnName(fn)+"|WithMaxRetries", in.Pos(), "the retry loop is limited to a number of attempts instead of by the caller's context")
+				}
+			}
+		})
+	}
+	if nPol == 0 {
+		r.OK("no policy writes", token.NoPos, "0 stores to back-off policy fields, 0 retry-count wrappers in the module")
+	}
+
+	// (c) Reset precedes Retry for reused back-offs
+	r.Rule("reset-before-retry", "a back-off object stored in the connection is Reset before every backoff.Retry that uses it", 3)
+	for _, rs := range c.RetrySites() {
+		pname := c.FnName(rs.Parent)
+		r.Fn(pname)
+		if len(rs.Call.Call.Args) < 2 {
+			continue
+		}
+		bo := stripConv(rs.Call.Call.Args[1])
+		var inner ssa.Value = bo
+		if call, ok := bo.(*ssa.Call); ok && isCallTo(call, fnBackoffWithCtx) {
+			inner = stripConv(call.Call.Args[0])
+		}
+		if call, ok := inner.(*ssa.Call); ok {
+			// freshly constructed back-off: nothing to reset
+			r.OK(pname+"|Retry(fresh "+shortName(calleeName(&call.Call))+")", rs.Call.Pos(), "back-off constructed for this call")
+			continue
+		}
+		sel := apOf(inner).SelString()
+		// a connection field that only ever holds backoff.WithContext(<inner>, ·): resetting <inner> resets it
+		if wsel, ok := c.wrapperInner(sel); ok {
+			sel = wsel
+		}
+		found := false
+		allInstrs(rs.Parent, false, func(in ssa.Instruction) {
+			if isCallTo(in, fnBackoffReset) {
+				if apOf(asCall(in).Value).SelString() == sel && mustPrecede(rs.Parent, in, rs.Call) {
+					found = true
+				}
+			}
+		})
+		r.Check(found, pname+"|Reset("+sel+") before Retry", rs.Call.Pos(), "Reset precedes Retry on every path", "reused back-off "+sel+" is not Reset before backoff.Retry: the first retry interval depends on earlier commands")
+	}
+
+	// (d) SendCommand returns the decoded completion code
+	r.Rule("code-from-message-layer", "SendCommand returns, on its non-error paths after the exchange, the completion code read from the decoded message layer after the exchange returned", 2)
+	for _, sc := range c.sendCommandImpls() {
+		name := c.FnName(sc)
+		r.Fn(name)
+		// the exchange: the call of the function that runs a sending operation under backoff.Retry
+		// (the operation may be a function literal or a method value)
+		starters := map[*ssa.Function]bool{}
+		for _, s := range scs {
+			starters[s.Parent] = true
+		}
+		var exch *ssa.Call
+		allInstrs(sc, false, func(in ssa.Instruction) {
+			if call, ok := in.(*ssa.Call); ok {
+				if f := call.Call.StaticCallee(); f != nil && starters[f] {
+					exch = call
+				}
+			}
+		})
+		if exch == nil {
+			r.Unk(name+"|exchange call", sc.Pos(), "cannot find the call that performs the exchange")
+			continue
+		}
+		good := true
+		why := ""
+		n := 0
+		for _, ret := range returnsOf(sc) {
+			if !canReachIn(sc, exch, ret) || len(ret.Results) != 2 {
+				continue
+			}
+			for _, v := range viewOrigins(sc, ret.Results[0]) {
+				if k, isK := constInt(v); isK && k == 0 {
+					// the error path before a code is known
+					continue
+				}
+				n++
+				ld, isLd := v.(*ssa.UnOp)
+				okLd := isLd && ld.Op == token.MUL && mustPrecede(sc, exch, ld)
+				if okLd {
+					aps := viewAPs(sc, ld.X)
+					okLd = len(aps) > 0
+					for _, ap := range aps {
+						okLd = okLd && strings.HasSuffix(ap.SelString(), fMsg+".CompletionCode")
+					}
+				}
+				if !okLd {
+					good = false
+					why = "returned code is " + apOf(v).String()
+				}
+			}
+		}
+		r.Check(good && n > 0, name+"|returned code", exch.Pos(), "code = messageLayer.CompletionCode read after the exchange", "SendCommand returns a completion code that is not the decoded message layer's: "+why)
+	}
+
+	// (e) typestate
+	checkFreshLayers(c, r, "fresh-layers")
+}
+
+// rejectSig summarises the decisions on a path that are not the standard ones.
+func rejectSig(ds []Decision) string {
+	var extra []string
+	for _, d := range ds {
+		switch d.Kind {
+		case "send-err", "decode-err", "innermost-err", "serialize-err", "temporary":
+		default:
+			if strings.HasPrefix(d.Kind, "flag:") {
+				continue
+			}
+			s := d.Kind
+			if !d.Arm {
+				s = "!" + s
+			}
+			extra = append(extra, s)
+		}
+	}
+	sort.Strings(extra)
+	return strings.Join(extra, ",")
+}
+
+// sendCommandImpls: the methods named by the Connection interface's
+// SendCommand in package bmc.
+func (c *Ctx) sendCommandImpls() []*ssa.Function {
+	var out []*ssa.Function
+	for _, tn := range []string{"V2Session", "V2Sessionless"} {
+		if f := c.Method("", tn, "SendCommand"); f != nil && f.Blocks != nil {
+			out = append(out, f)
+		}
+	}
+	return out
+}
+
+// wrapperInner: if every store to the field with selector sel is the result of
+// backoff.WithContext(x, ·), return x's selector.
+func (c *Ctx) wrapperInner(sel string) (string, bool) {
+	inner := ""
+	n := 0
+	okAll := true
+	for _, fn := range c.LibFuncs() {
+		rawInstrs(fn, false, func(in ssa.Instruction) {
+			s, _, st, ok := storeSel(in)
+			if !ok || s != sel {
+				return
+			}
+			n++
+			call, isCall := stripConv(st.Val).(*ssa.Call)
+			if !isCall || !isCallTo(call, fnBackoffWithCtx) {
+				okAll = false
+				return
+			}
+			inner = apOf(stripConv(call.Call.Args[0])).SelString()
+		})
+	}
+	return inner, n > 0 && okAll && inner != ""
+}
+
+
+// checkClosureExits classifies every exit of the send closures and checks the terminal-error
+// plumbing of the in-session one. Shared with C13, whose last clause ("no call reports
+// success without having received a valid response") is decided by exactly these paths: a
+// transport failure that is neither returned to the retry loop nor recorded and handed to
+// the caller is a success without a response.
+func checkClosureExits(c *Ctx, r *Report) []SendClosure {
 	scs := c.SendClosures()
 	if len(scs) < 3 {
 		r.Rule("closure-exits", "", 3)
@@ -362,151 +566,5 @@ func checkC10(c *Ctx, r *Report) {
 		}
 	}
 
-	// (c) Reset precedes Retry for reused back-offs
-	r.Rule("reset-before-retry", "a back-off object stored in the connection is Reset before every backoff.Retry that uses it", 3)
-	for _, rs := range c.RetrySites() {
-		pname := c.FnName(rs.Parent)
-		r.Fn(pname)
-		if len(rs.Call.Call.Args) < 2 {
-			continue
-		}
-		bo := stripConv(rs.Call.Call.Args[1])
-		var inner ssa.Value = bo
-		if call, ok := bo.(*ssa.Call); ok && isCallTo(call, fnBackoffWithCtx) {
-			inner = stripConv(call.Call.Args[0])
-		}
-		if call, ok := inner.(*ssa.Call); ok {
-			// freshly constructed back-off: nothing to reset
-			r.OK(pname+"|Retry(fresh "+shortName(calleeName(&call.Call))+")", rs.Call.Pos(), "back-off constructed for this call")
-			continue
-		}
-		sel := apOf(inner).SelString()
-		// a connection field that only ever holds backoff.WithContext(<inner>, ·): resetting <inner> resets it
-		if wsel, ok := c.wrapperInner(sel); ok {
-			sel = wsel
-		}
-		found := false
-		allInstrs(rs.Parent, false, func(in ssa.Instruction) {
-			if isCallTo(in, fnBackoffReset) {
-				if apOf(asCall(in).Value).SelString() == sel && mustPrecede(rs.Parent, in, rs.Call) {
-					found = true
-				}
-			}
-		})
-		r.Check(found, pname+"|Reset("+sel+") before Retry", rs.Call.Pos(), "Reset precedes Retry on every path", "reused back-off "+sel+" is not Reset before backoff.Retry: the first retry interval depends on earlier commands")
-	}
-
-	// (d) SendCommand returns the decoded completion code
-	r.Rule("code-from-message-layer", "SendCommand returns, on its non-error paths after the exchange, the completion code read from the decoded message layer after the exchange returned", 2)
-	for _, sc := range c.sendCommandImpls() {
-		name := c.FnName(sc)
-		r.Fn(name)
-		// the exchange: the call of the function that runs a sending operation under backoff.Retry
-		// (the operation may be a function literal or a method value)
-		starters := map[*ssa.Function]bool{}
-		for _, s := range scs {
-			starters[s.Parent] = true
-		}
-		var exch *ssa.Call
-		allInstrs(sc, false, func(in ssa.Instruction) {
-			if call, ok := in.(*ssa.Call); ok {
-				if f := call.Call.StaticCallee(); f != nil && starters[f] {
-					exch = call
-				}
-			}
-		})
-		if exch == nil {
-			r.Unk(name+"|exchange call", sc.Pos(), "cannot find the call that performs the exchange")
-			continue
-		}
-		good := true
-		why := ""
-		n := 0
-		for _, ret := range returnsOf(sc) {
-			if !canReachIn(sc, exch, ret) || len(ret.Results) != 2 {
-				continue
-			}
-			for _, v := range viewOrigins(sc, ret.Results[0]) {
-				if k, isK := constInt(v); isK && k == 0 {
-					// the error path before a code is known
-					continue
-				}
-				n++
-				ld, isLd := v.(*ssa.UnOp)
-				okLd := isLd && ld.Op == token.MUL && mustPrecede(sc, exch, ld)
-				if okLd {
-					aps := viewAPs(sc, ld.X)
-					okLd = len(aps) > 0
-					for _, ap := range aps {
-						okLd = okLd && strings.HasSuffix(ap.SelString(), fMsg+".CompletionCode")
-					}
-				}
-				if !okLd {
-					good = false
-					why = "returned code is " + apOf(v).String()
-				}
-			}
-		}
-		r.Check(good && n > 0, name+"|returned code", exch.Pos(), "code = messageLayer.CompletionCode read after the exchange", "SendCommand returns a completion code that is not the decoded message layer's: "+why)
-	}
-
-	// (e) typestate
-	checkFreshLayers(c, r, "fresh-layers")
-}
-
-// rejectSig summarises the decisions on a path that are not the standard ones.
-func rejectSig(ds []Decision) string {
-	var extra []string
-	for _, d := range ds {
-		switch d.Kind {
-		case "send-err", "decode-err", "innermost-err", "serialize-err", "temporary":
-		default:
-			if strings.HasPrefix(d.Kind, "flag:") {
-				continue
-			}
-			s := d.Kind
-			if !d.Arm {
-				s = "!" + s
-			}
-			extra = append(extra, s)
-		}
-	}
-	sort.Strings(extra)
-	return strings.Join(extra, ",")
-}
-
-// sendCommandImpls: the methods named by the Connection interface's
-// SendCommand in package bmc.
-func (c *Ctx) sendCommandImpls() []*ssa.Function {
-	var out []*ssa.Function
-	for _, tn := range []string{"V2Session", "V2Sessionless"} {
-		if f := c.Method("", tn, "SendCommand"); f != nil && f.Blocks != nil {
-			out = append(out, f)
-		}
-	}
-	return out
-}
-
-// wrapperInner: if every store to the field with selector sel is the result of
-// backoff.WithContext(x, ·), return x's selector.
-func (c *Ctx) wrapperInner(sel string) (string, bool) {
-	inner := ""
-	n := 0
-	okAll := true
-	for _, fn := range c.LibFuncs() {
-		rawInstrs(fn, false, func(in ssa.Instruction) {
-			s, _, st, ok := storeSel(in)
-			if !ok || s != sel {
-				return
-			}
-			n++
-			call, isCall := stripConv(st.Val).(*ssa.Call)
-			if !isCall || !isCallTo(call, fnBackoffWithCtx) {
-				okAll = false
-				return
-			}
-			inner = apOf(stripConv(call.Call.Args[0])).SelString()
-		})
-	}
-	return inner, n > 0 && okAll && inner != ""
+	return scs
 }
